@@ -869,3 +869,85 @@ func (c *Ctx) helperDoesUnder(in ssa.Instruction, labels []string, H []string) b
 	gm, gex := sm.MustUnder(g, c.F.SkipUnder(H2...))
 	return gex > 0 && hasAny(gm, labels...)
 }
+
+// effSite: where a backend callback "happens" for the rules that judge its surroundings: the call itself, or — when
+// it sits in an unexported helper that hands the callback's error back to its caller — each call of that helper,
+// with the error described in the caller's frame.
+type effSite struct {
+	site    ssa.Instruction
+	errDesc string
+	wrapped bool
+}
+
+func (c *Ctx) effSites(label, errDescDirect string) []effSite {
+	var out []effSite
+	for _, site := range c.Sites(label) {
+		g := site.Parent()
+		if g.Parent() == nil && !isExported(g) && inSmtp(g) {
+			if k := returnsErrOrNil(g, errDescDirect); k >= 0 {
+				callers := c.callersOf(g)
+				okAll := len(callers) > 0
+				var wrapped []effSite
+				for _, cs := range callers {
+					cv, isV := cs.(ssa.Value)
+					if !isV {
+						okAll = false
+						break
+					}
+					d := describe(cv)
+					if g.Signature.Results().Len() > 1 {
+						d = fmt.Sprintf("%s#%d", d, k)
+					}
+					wrapped = append(wrapped, effSite{cs, d, true})
+				}
+				if okAll {
+					out = append(out, wrapped...)
+					continue
+				}
+			}
+		}
+		out = append(out, effSite{site, errDescDirect, false})
+	}
+	return out
+}
+
+// returnsErrOrNil: index of the result through which every normal return of f hands out either the value described
+// by d or nil (and at least one return hands out d); -1 otherwise.
+func returnsErrOrNil(f *ssa.Function, d string) int {
+	idx := -1
+	res := f.Signature.Results()
+	for i := 0; i < res.Len(); i++ {
+		if res.At(i).Type().String() == "error" {
+			idx = i
+		}
+	}
+	if idx < 0 {
+		return -1
+	}
+	ok, hasD, nRet := true, false, 0
+	allInstrs(f, func(in ssa.Instruction) {
+		r, isR := in.(*ssa.Return)
+		if !isR || in.Block() == f.Recover {
+			return
+		}
+		nRet++
+		rv := returnedValues(r)
+		if idx >= len(rv) {
+			ok = false
+			return
+		}
+		for _, l := range leafSources(rv[idx]) {
+			switch l {
+			case d:
+				hasD = true
+			case "nil":
+			default:
+				ok = false
+			}
+		}
+	})
+	if !ok || !hasD || nRet == 0 {
+		return -1
+	}
+	return idx
+}
